@@ -1,5 +1,6 @@
 import MosdnsVerif.Base.Hex
 import MosdnsVerif.Model.C19
+import MosdnsVerif.Gen.Facts
 
 namespace Driver.C19
 open Model.C19
@@ -27,6 +28,13 @@ def dec (bs : Bytes) : Option (List Nat) := decAux (bs.length + 1) bs
 def blocks? (s : String) : Option (List (List Nat)) :=
   if s == "-" then some [] else (s.splitOn ",").mapM (fun b => (b.splitOn "+").mapM (·.toNat?))
 
+/-- One digit per step: the dump that moves next. -/
+def sched? (s : String) : Option (List Nat) :=
+  s.toList.mapM (fun c => if '0' ≤ c ∧ c ≤ '9' then some (c.toNat - 48) else none)
+
+/-- Where this tree's `writeDump` keeps a marshaled block (regenerated fact). -/
+def writerLocal : Bool := Gen.Facts.c19WriterStateLocal == some true
+
 /-- `load <entry sizes: s1+s2,s3> <plaintext bytes available> <clean 0|1>`
  -> `<entries stored> <error 0|1>`;  `raw <hex plaintext> <clean>` for crafted streams. -/
 def handle : List String → String
@@ -36,6 +44,17 @@ def handle : List String → String
       let p := (plain enc blocks).take cut
       let r := load dec (blocks.length + 2) p clean
       s!"{r.1.length} {Hex.showBool r.2}"
+    | _, _, _ => "bad-op"
+  -- `ovl <blocks of dump 0> <blocks of dump 1> <schedule>`: two overlapping dumps of one cache, then each output is loaded
+  --   -> `<entries 0> <error 0> <entries 1> <error 1>`
+  | ["ovl", bl0, bl1, sc] =>
+    match blocks? bl0, blocks? bl1, sched? sc with
+    | some b0, some b1, some sc =>
+      let w := run enc writerLocal sc ⟨fun j => Dump.fresh (if j = 0 then b0 else if j = 1 then b1 else []), []⟩
+      let clean := fun (j : Nat) => (w.dumps j).finished
+      let r0 := load dec (b0.length + b1.length + 2) (w.dumps 0).out (clean 0)
+      let r1 := load dec (b0.length + b1.length + 2) (w.dumps 1).out (clean 1)
+      s!"{r0.1.length} {Hex.showBool r0.2} {r1.1.length} {Hex.showBool r1.2}"
     | _, _, _ => "bad-op"
   | ["raw", h, clean] =>
     match Hex.decode h, Hex.bool? clean with
